@@ -38,7 +38,7 @@ CFG = {'streams': [{'name': 'C10rx',
                  'on it',
                  'the \\w table of the model is exact for ASCII, U+0080-U+02C1 and U+4E00-U+9FFF only; other code points are treated as non-word '
                  '(generated subjects stay inside these blocks)',
-                 'strict and lazy scan loops are two textual copies of one algorithm; they are modelled by one function and both are run against it '
+                 'strict and lazy scan loops are two textual copies of one algorithm; the property theorems are stated about one function (Model/Scan.v) and LINKED to the loops of the two interpreter models (strict_scan_refines_scan_model, lazy_scan_refines_scan_model, strict_/lazy_scan_spec, strict_/lazy_empty_match_is_error, interp_arm_select_spec); both are run against it '
                  'in every case',
                  "code-point offsets stand for the code's byte offsets: every offset the loop computes is a sum of match ends, hence a char "
                  'boundary'],
